@@ -29,6 +29,7 @@ type CallPattern struct {
 }
 
 type CallAssert struct {
+	Assume  bool   // after call P assume l: e -- a trusted fact about the callee's effect at this site
 	When    string // before | after
 	Pattern CallPattern
 	Clause  Clause
@@ -440,6 +441,10 @@ func (c *Contracts) loadContractFile(path, pkgPath string) {
 				}
 				body := strings.TrimSpace(rest[len(f[0]):])
 				i := strings.Index(body, " assert ")
+				assume := false
+				if j := strings.Index(body, " assume "); i < 0 && j >= 0 && kw == "after" {
+					i, assume = j, true
+				}
 				if i < 0 {
 					c.errf("%s: missing 'assert' in %s clause", pos, kw)
 					continue
@@ -449,7 +454,7 @@ func (c *Contracts) loadContractFile(path, pkgPath string) {
 					cur.StoreNames = append(cur.StoreNames, pat.Callee)
 				}
 				cl := c.clause(strings.TrimSpace(body[i+len(" assert "):]), pos)
-				cur.Calls = append(cur.Calls, CallAssert{When: kw, Pattern: pat, Clause: cl})
+				cur.Calls = append(cur.Calls, CallAssert{When: kw, Pattern: pat, Clause: cl, Assume: assume})
 			case "forbid":
 				f := strings.Fields(rest)
 				if len(f) < 2 || (f[0] != "call" && f[0] != "go" && f[0] != "defer" && f[0] != "mapupdate" && f[0] != "send") {
